@@ -23,5 +23,6 @@ void sch_obs_thread(uint64_t v);           /* fold into the calling thread's own
 int  sch_self(void);                       /* scheduler id of the calling thread (0 = main) */
 long sch_clock(void);                      /* global step counter (stamps) */
 int  sch_active(void);                     /* 1 while an execution is being scheduled */
+extern int sch_create_fail_nth;            /* fault deviation: the n-th pthread_create of every execution fails with EAGAIN (0 = none) */
 int  sch_main(int argc, char **argv);      /* explorer entry point */
 #endif
